@@ -172,16 +172,89 @@ func runC41Scope(c *core.Check) {
 			}
 		}
 		// --- element-scope-decided
+		// a decision about X: the writeable list of X is what the code goes on with (assigned to a variable that is
+		// ranged over or indexed later), or its length is compared with len(X.References). Asking only whether the
+		// writeable list is empty decides nothing about the references that are not writeable.
 		decided := map[types.Object]token.Pos{}
-		for _, call := range core.Calls(fi.Decl.Body, true) {
-			if (core.IsCallTo(info, call, "d2oracle.GetWriteableRefs") || core.IsCallTo(info, call, "d2oracle.GetWriteableEdgeRefs")) && len(call.Args) >= 1 {
-				if o := core.ObjOf(info, call.Args[0]); o != nil {
-					if p, ok := decided[o]; !ok || call.Pos() < p {
-						decided[o] = call.Pos()
+		isW := func(e ast.Expr) (types.Object, *ast.CallExpr) {
+			call, ok := ast.Unparen(e).(*ast.CallExpr)
+			if !ok || len(call.Args) < 1 || !(core.IsCallTo(info, call, "d2oracle.GetWriteableRefs") || core.IsCallTo(info, call, "d2oracle.GetWriteableEdgeRefs")) {
+				return nil, nil
+			}
+			return core.ObjOf(info, call.Args[0]), call
+		}
+		mark := func(o types.Object, pos token.Pos) {
+			if o == nil {
+				return
+			}
+			if p, ok := decided[o]; !ok || pos < p {
+				decided[o] = pos
+			}
+		}
+		wvars := map[types.Object]types.Object{} // variable holding a writeable list → element
+		rawAlias := map[types.Object]types.Object{}
+		ast.Inspect(fi.Decl.Body, func(n ast.Node) bool {
+			as, ok := n.(*ast.AssignStmt)
+			if !ok || len(as.Lhs) != 1 || len(as.Rhs) != 1 {
+				return true
+			}
+			v := core.ObjOf(info, as.Lhs[0])
+			if v == nil {
+				return true
+			}
+			if o, _ := isW(as.Rhs[0]); o != nil {
+				wvars[v] = o
+				delete(rawAlias, v)
+			} else if sel, ok := ast.Unparen(as.Rhs[0]).(*ast.SelectorExpr); ok && sel.Sel.Name == "References" {
+				if _, isWv := wvars[v]; !isWv {
+					rawAlias[v] = core.ObjOf(info, sel.X)
+				}
+			}
+			return true
+		})
+		for v := range wvars {
+			delete(rawAlias, v)
+		}
+		ast.Inspect(fi.Decl.Body, func(n ast.Node) bool {
+			switch x := n.(type) {
+			case *ast.RangeStmt:
+				if o, ok := wvars[core.ObjOf(info, x.X)]; ok {
+					mark(o, x.Pos())
+				}
+			case *ast.IndexExpr:
+				if o, ok := wvars[core.ObjOf(info, x.X)]; ok {
+					mark(o, x.Pos())
+				}
+			case *ast.BinaryExpr:
+				// len(W) <op> len(X.References)
+				lenOf := func(e ast.Expr) ast.Expr {
+					call, ok := ast.Unparen(e).(*ast.CallExpr)
+					if !ok || exprStr(call.Fun) != "len" || len(call.Args) != 1 {
+						return nil
+					}
+					return call.Args[0]
+				}
+				for _, pair := range [][2]ast.Expr{{x.X, x.Y}, {x.Y, x.X}} {
+					a, b := lenOf(pair[0]), lenOf(pair[1])
+					if a == nil || b == nil {
+						continue
+					}
+					var el types.Object
+					if o, ok := wvars[core.ObjOf(info, a)]; ok {
+						el = o
+					} else if o, _ := isW(a); o != nil {
+						el = o
+					}
+					if el == nil {
+						continue
+					}
+					if sel, ok := ast.Unparen(b).(*ast.SelectorExpr); ok && sel.Sel.Name == "References" && core.ObjOf(info, sel.X) == el {
+						mark(el, x.Pos())
 					}
 				}
 			}
-		}
+			return true
+		})
 		walked := map[types.Object]token.Pos{}
 		note := func(e ast.Expr, pos token.Pos) {
 			o := core.ObjOf(info, e)
@@ -197,6 +270,14 @@ func runC41Scope(c *core.Check) {
 			case *ast.RangeStmt:
 				if sel, ok := ast.Unparen(x.X).(*ast.SelectorExpr); ok && sel.Sel.Name == "References" && loopWritesThrough(info, x.Body, x.Value) {
 					note(sel.X, x.Pos())
+				}
+				// a variable that only ever held X.References is X.References
+				if el, ok := rawAlias[core.ObjOf(info, x.X)]; ok && el != nil {
+					if loopWritesThrough(info, x.Body, x.Value) || loopWritesThrough(info, x.Body, x.Key) || rangeIndexWrites(info, x) {
+						if p, seen := walked[el]; !seen || x.Pos() < p {
+							walked[el] = x.Pos()
+						}
+					}
 				}
 			case *ast.ForStmt:
 				// for i := …; …; … { ref := X.References[i]; … }
@@ -589,4 +670,24 @@ func loopWritesThrough(info *types.Info, body *ast.BlockStmt, loopVar ast.Expr) 
 		return true
 	})
 	return writes
+}
+
+// rangeIndexWrites: `for i := range R { ref := R[i]; … }` with writes through ref.
+func rangeIndexWrites(info *types.Info, rs *ast.RangeStmt) bool {
+	found := false
+	ast.Inspect(rs.Body, func(n ast.Node) bool {
+		as, ok := n.(*ast.AssignStmt)
+		if !ok || as.Tok != token.DEFINE || len(as.Lhs) != 1 || len(as.Rhs) != 1 {
+			return true
+		}
+		ix, ok := ast.Unparen(as.Rhs[0]).(*ast.IndexExpr)
+		if !ok || core.ObjOf(info, ix.X) != core.ObjOf(info, rs.X) {
+			return true
+		}
+		if loopWritesThrough(info, rs.Body, as.Lhs[0]) {
+			found = true
+		}
+		return true
+	})
+	return found
 }
